@@ -127,17 +127,17 @@ package eth
 //@   modifies tracker.State, ctx.ETHTrackers.prefix, trkHas(ctx.ETHTrackers), trkType(ctx.ETHTrackers), trkState(ctx.ETHTrackers), trkOwner(ctx.ETHTrackers), trkTx(ctx.ETHTrackers), trkTo(ctx.ETHTrackers), trkN(ctx.ETHTrackers), trkYes(ctx.ETHTrackers), trkNo(ctx.ETHTrackers), trkWitAt(ctx.ETHTrackers), trkSlot(ctx.ETHTrackers), vHas(ctx.ETHTrackers.state), vVal(ctx.ETHTrackers.state)
 //@   ensures err == nil ==> tracker.State == trkStReleased() && trkRecorded(ctx.ETHTrackers, ethOngoing(ctx), tracker)   // C15.redeem-released
 
-// `*ethTx.To()` at check_finalty.go:321 is a nil dereference when the tracker's transaction is a contract creation
-// (To() == nil); runERC20Reddem never looks at To(), so nothing rules this out: the C18 nil-deref obligation fails.
+// `*ethTx.To()` used to be dereferenced unconditionally (nil for a contract-creation transaction; runERC20Reddem
+// never looks at To()): repaired by 4cb215b, the C18 nil-deref obligation is now discharged.
 //@ func burnERC20Tokens
 //@   safety C18
 //@   requires ctxOK(ctx) && trkStorable(tracker)                                                               // C18.ctx
 //@   modifies tracker.State, ctx.ETHTrackers.prefix, trkHas(ctx.ETHTrackers), trkType(ctx.ETHTrackers), trkState(ctx.ETHTrackers), trkOwner(ctx.ETHTrackers), trkTx(ctx.ETHTrackers), trkTo(ctx.ETHTrackers), trkN(ctx.ETHTrackers), trkYes(ctx.ETHTrackers), trkNo(ctx.ETHTrackers), trkWitAt(ctx.ETHTrackers), trkSlot(ctx.ETHTrackers), vHas(ctx.ETHTrackers.state), vVal(ctx.ETHTrackers.state)
 //@   ensures err == nil ==> tracker.State == trkStReleased() && trkRecorded(ctx.ETHTrackers, ethOngoing(ctx), tracker)  // C15.redeem-released
 
-// (no `safety C18` here: `*ethTx.To()` at check_finalty.go:348 cannot be nil for a tracker created by runERC20Lock,
-// which dereferences the same To() first, but To() is an external getter the engine cannot relate to the bytes)
+// (`*ethTx.To()` is guarded since 4cb215b)
 //@ func mintERC20tokens
+//@   safety C18
 //@   requires ctxOK(ctx) && trkStorable(tracker)                                                               // C18.ctx
 //@   modifies bal(ctx.Balances), balTotal(ctx.Balances), vHas(ctx.Balances.State), vVal(ctx.Balances.State), tracker.State, ctx.ETHTrackers.prefix, trkHas(ctx.ETHTrackers), trkType(ctx.ETHTrackers), trkState(ctx.ETHTrackers), trkOwner(ctx.ETHTrackers), trkTx(ctx.ETHTrackers), trkTo(ctx.ETHTrackers), trkN(ctx.ETHTrackers), trkYes(ctx.ETHTrackers), trkNo(ctx.ETHTrackers), trkWitAt(ctx.ETHTrackers), trkSlot(ctx.ETHTrackers), vHas(ctx.ETHTrackers.state), vVal(ctx.ETHTrackers.state)
 //@   ensures err == nil ==> forall k string :: bal(ctx.Balances)[k] != old(bal(ctx.Balances))[k] ==> exists c string :: k == balKey(tracker.ProcessOwner, c) || k == balKey(ethSupplyAddr(ctx), c)   // C15.mint-to-lock-submitter
@@ -216,8 +216,8 @@ package eth
 // runLock (property C15: "the same external transaction can never back two trackers": the name is absent from the
 // ongoing and the passed store, a failed predecessor is deleted first; the recorded process owner is the Locker that
 // signed the Lock transaction; nothing is minted at lock time).
-// C18: `ethTx.To().Bytes()` at ext_lock.go:175 dereferences To(), which is nil for a contract-creation transaction:
-// the nil-deref obligation below fails (To() is an external getter with an arbitrary, possibly nil, result).
+// C18: `ethTx.To().Bytes()` at ext_lock.go:175 used to dereference a nil To() for a contract-creation transaction
+// (To() is an external getter with an arbitrary, possibly nil, result): repaired by 4cb215b.
 //@ func runLock
 //@   safety C18
 //@   requires ctxOK(ctx) && lock != nil                                                                     // C18.ctx
@@ -232,9 +232,9 @@ package eth
 // unlike runLock the code has NO existence check at all, it overwrites an ongoing tracker of the same name (resetting
 // its votes) and, after the first tracker was released and moved to the passed store, accepts the same Ethereum
 // transaction again, so the same ERC20 lock can be minted twice. The `ensures` clause says what the code does.
-// C18 (both obligations fail, genuinely): `*ethTx.To()` at ext_ERC20Lock.go:142 is a nil dereference for a
-// contract-creation transaction; `err.Error()` at ext_ERC20Lock.go:160 is called with err == nil whenever
-// VerfiyERC20Lock returns (false, nil), i.e. for every ERC20 transfer whose receiver is not the OneLedger contract.
+// C18 (both obligations failed, genuinely, and are repaired): `*ethTx.To()` was a nil dereference for a
+// contract-creation transaction (4cb215b); `err.Error()` was called with err == nil whenever VerfiyERC20Lock returns
+// (false, nil), i.e. for every ERC20 transfer whose receiver is not the OneLedger contract (25e5e0e).
 //@ func runERC20Lock
 //@   safety C18
 //@   requires ctxOK(ctx)                                                                                    // C18.ctx
